@@ -498,6 +498,143 @@ Definition run_c09_jsonwrite (args : list sx) : sx :=
     ret (L [L (map json_encode_alone vs); sx_nat n; sx_bool failed; B (jcompact false false (k_out k))])
   | _ => None end).
 
+(* ---------- the peers' main loops ----------
+   referenceclient.run :  decoder := codec.NewDecoder(stdin)   -- ONCE per stream
+                          for { err := decoder.DecodeNext(&req)
+                                io.EOF -> return nil ; other error -> return err
+                                answer req (one ClientCompatResponse carrying its test name) }
+   referenceserver.run :  codec.NewDecoder(stdin).DecodeNext(req)   -- one request, one decoder
+   The binary decoder (protoDecoder) holds no bytes between two calls; the JSON decoder
+   (json.Decoder) keeps what a Read returned beyond the current value in its buffer - `rest`
+   in json_all_loop - and that buffer lives and dies with the decoder. *)
+Inductive stop := StopEOF | StopUnexpected | StopIO | StopOversize | StopSyntax | StopBlocked | StopFuel.
+
+Definition stop_of_merr (e : merr) : stop :=
+  match e with MEOF => StopEOF | MUnexpected => StopUnexpected | MIO => StopIO | MOversize => StopOversize end.
+Definition stop_of_final (f : final) : stop :=
+  match f with FErr e _ => stop_of_merr e | FTimeout _ _ _ => StopBlocked | FFuel => StopFuel end.
+Definition stop_of_jfinal (f : jfinal) : stop :=
+  match f with JFErr e => stop_of_merr e | JFSyntax => StopSyntax | JFBlock => StopBlocked | JFFuel => StopFuel end.
+
+(* what a sender puts on the wire for a list of messages, in the two variants *)
+Definition peer_wire (json : bool) (msgs : list bytes) : bytes :=
+  if json then json_write_all msgs else write_all msgs.
+(* the bytes that have to arrive for m to be decoded *)
+Definition peer_frame (json : bool) (m : bytes) : bytes := if json then m else write_msg m.
+
+Inductive first_res := FirstMsg (m : bytes) | FirstStop (st : stop).
+
+Section Peer.
+  Variable scan : bytes -> scan_res.
+
+  (* the decoder is created once; the requests answered, in order, and how the loop ends
+     (StopEOF: the loop returns nil) *)
+  Definition peer_loop (json : bool) (s : src) : list bytes * stop :=
+    if json then let r := json_all scan s in (fst r, stop_of_jfinal (snd r))
+    else let r := decode_all s in (fst r, stop_of_final (snd r)).
+
+  (* NOT what the code does: a decoder built inside the loop, one per request.  JSON: every
+     DecodeNext starts with an empty buffer and what its decoder had read ahead is dropped. *)
+  Fixpoint json_fresh_loop (fuel : nat) (s : src) : list bytes * jfinal :=
+    match fuel with
+    | O => ([], JFFuel)
+    | S f =>
+      match json_next scan [] s with
+      | JVal v _ s' => let (vs, e) := json_fresh_loop f s' in (v :: vs, e)
+      | JErr e _ => ([], JFErr e)
+      | JSyntax => ([], JFSyntax)
+      | JBlock => ([], JFBlock)
+      | JFuel => ([], JFFuel)
+      end
+    end.
+  Definition peer_loop_fresh (json : bool) (s : src) : list bytes * stop :=
+    if json then let r := json_fresh_loop (S (length (s_data s))) s in (fst r, stop_of_jfinal (snd r))
+    else let r := decode_all s in (fst r, stop_of_final (snd r)).
+
+  (* one decoder, one DecodeNext (the reference server reads its single request like this) *)
+  Definition peer_first (json : bool) (s : src) : first_res :=
+    if json then
+      match json_next scan [] s with
+      | JVal v _ _ => FirstMsg v
+      | JErr e _ => FirstStop (stop_of_merr e)
+      | JSyntax => FirstStop StopSyntax
+      | JBlock => FirstStop StopBlocked
+      | JFuel => FirstStop StopFuel
+      end
+    else
+      match decode_next s with
+      | Msg m _ => FirstMsg m
+      | MErr e _ => FirstStop (stop_of_merr e)
+      | MTimeout _ _ _ => FirstStop StopBlocked
+      | MFuel => FirstStop StopFuel
+      end.
+End Peer.
+
+(* projection of a decoded message to what the harness can observe (the test name of the response,
+   the behaviour of the started server): looked up in a table the case brings along; JSON texts are
+   compared in compact form *)
+Definition peer_key (json : bool) (m : bytes) : bytes := if json then jcompact false false m else m.
+Fixpoint peer_lookup {A} (json : bool) (table : list (bytes * A)) (m : bytes) : option A :=
+  match table with
+  | [] => None
+  | (k, a) :: t => if bytes_eqb (peer_key json k) (peer_key json m) then Some a else peer_lookup json t m
+  end.
+Fixpoint map_opt {A B} (f : A -> option B) (l : list A) : option (list B) :=
+  match l with
+  | [] => Some []
+  | x :: r => do y <- f x; do ys <- map_opt f r; ret (y :: ys)
+  end.
+(* the multiset of names, listed in the order in which the names first occur in the table *)
+Definition by_table_order (order names : list bytes) : list bytes :=
+  flat_map (fun n => filter (bytes_eqb n) names) (rev (dedup (rev order))).
+
+Definition sx_stop (clean : bytes) (st : stop) : sx :=
+  B (match st with
+     | StopEOF => clean | StopUnexpected => bs "unexpected-eof" | StopIO => bs "io-error"
+     | StopOversize => bs "oversize" | StopSyntax => bs "syntax" | StopBlocked => bs "blocked"
+     | StopFuel => bs "model-out-of-fuel" end).
+
+Definition un_pair {A} (f : sx -> option A) (e : sx) : option (bytes * A) :=
+  match e with L [B k; v] => do a <- f v; ret (k, a) | _ => None end.
+
+(* (json p ref data sched eager tail ((message name) ...)) -> ((names answered) exit): the main loop of
+   the reference client.  p = 1: the sequence of answers; p > 1: their multiset in table order.
+   `ref` only selects the Go entry point. *)
+Definition run_c09_client (args : list sx) : sx :=
+  or_bad (match args with
+  | [js; p; rf; d; sch; eg; tl; table] =>
+    do js <- un_bool js; do p <- un_nat p; do _ <- un_bool rf; do s <- un_src d sch eg tl;
+    do table <- un_listof (un_pair un_B) table;
+    let r := peer_loop jscan js s in
+    do names <- map_opt (peer_lookup js table) (fst r);
+    ret (L [L (map B (if (p <=? 1)%nat then names else by_table_order (map snd table) names));
+            sx_stop (bs "ok") (snd r)])
+  | _ => None end).
+
+(* (json ref data sched eager tail ((message (http_version message_receive_limit)) ...)) ->
+   (serving (h2c limited)) | (exit kind): the reference server reads its one request; what a probe of the
+   started server sees says which request was decoded: HTTP/2 with prior knowledge is spoken iff
+   http_version = 2 (1: HTTP/1.1 only), a 300-byte unary request is refused iff 0 < limit < 300.
+   `ref` only selects the Go entry point *)
+Definition un_server_fields (v : sx) : option (N * N) :=
+  match v with
+  | L [ver; lim] => do ver <- un_N ver; do lim <- un_N lim;
+                    if (ver =? 1) || (ver =? 2) then ret (ver, lim) else None
+  | _ => None
+  end.
+Definition server_probe (f : N * N) : sx :=
+  L [sx_bool (fst f =? 2); sx_bool ((0 <? snd f) && (snd f <? 300))].
+Definition run_c09_server (args : list sx) : sx :=
+  or_bad (match args with
+  | [js; rf; d; sch; eg; tl; table] =>
+    do js <- un_bool js; do _ <- un_bool rf; do s <- un_src d sch eg tl;
+    do table <- un_listof (un_pair un_server_fields) table;
+    match peer_first jscan js s with
+    | FirstMsg m => do f <- peer_lookup js table m; ret (L [B (bs "serving"); server_probe f])
+    | FirstStop st => ret (L [B (bs "exit"); sx_stop (bs "eof") st])
+    end
+  | _ => None end).
+
 Definition c09_table : list (bytes * (list sx -> sx)) :=
   [ (bs "c09.raw", run_c09_read);
     (bs "c09.read", run_c09_read);
@@ -509,4 +646,6 @@ Definition c09_table : list (bytes * (list sx -> sx)) :=
     (bs "c09.jsonrt", run_c09_jsonrt);
     (bs "c09.wsink", run_c09_wsink);
     (bs "c09.pipe", run_c09_pipe);
-    (bs "c09.jsonwrite", run_c09_jsonwrite) ].
+    (bs "c09.jsonwrite", run_c09_jsonwrite);
+    (bs "c09.client", run_c09_client);
+    (bs "c09.server", run_c09_server) ].
